@@ -186,3 +186,6 @@ Example prec_printer_nonvacuous :
   wf_body ex_prog = true /\ length (prP_body ex_prog) = 78%nat /\
   p_body (40 * bsize ex_prog) (prP_body ex_prog) = Some (ex_prog, []).
 Proof. repeat split; vm_compute; reflexivity. Qed.
+
+Example prec_prog_nonvacuous : wf_body ex_prog = true /\ parse_prog (prP_body ex_prog) = Some ex_prog.
+Proof. split; vm_compute; reflexivity. Qed.
